@@ -357,3 +357,34 @@ func HarnessC17Constructors() {
 		check(calls == 1, "the client method makes exactly one call")
 	}
 }
+
+func c17GoName(name string, n int) string {
+	s := nondetString(name, n)
+	assume(len(s) > 0 && s[0] >= 'A' && s[0] <= 'Z')
+	for i := 1; i < len(s); i++ {
+		assume((s[i] >= 'a' && s[i] <= 'z') || s[i] == '_' || (s[i] >= 'A' && s[i] <= 'B'))
+	}
+	return s
+}
+
+// HarnessC17UnexportInjective: a Go method name (letters and underscores, as
+// protoc-gen-go produces them) and its neighbours - the same name with one
+// or two underscores appended, or with a trailing underscore removed - never
+// get the same struct field name, whatever escaping the generator applies to
+// keywords: a duplicate field would not type-check.
+//
+//verif:harness property=C17
+func HarnessC17UnexportInjective() {
+	a := c17GoName("goNameA", bound("goNamePairLen", 8, 9))
+	var b string
+	switch nondetChoice("neighbour", 3) {
+	case 0:
+		b = a + "_"
+	case 1:
+		b = a + "__"
+	default:
+		assume(len(a) > 1 && a[len(a)-1] == '_')
+		b = a[:len(a)-1]
+	}
+	check(unexport(a) != unexport(b), "two different method names never share a client field name")
+}
